@@ -4,7 +4,7 @@ from .. import gen
 from ..gen import schema_lines, NOCASE, COMMENTS, IGNORE_UNKNOWN
 from .C01 import hand_schemas
 
-THEOREMS = ["C15_step_other", "C15_step_s0_off", "C15_step_s0_on", "C15_insert", "C15_ws", "C15_line_comment_token", "C15_annotation_attach", "C15_transparent_annotations_on"]
+THEOREMS = ["C15_step_other", "C15_step_s0_off", "C15_step_s0_on", "C15_insert", "C15_ws", "C15_line_comment_token", "C15_annotation_attach", "C15_transparent_annotations_on", "C15_annotation_readback", "C15_annotation_readback_block", "C15_annotation_readback_line", "commentRun_block"]
 PARTIAL = ("Proved: a comment token is the identity on the whole machine in every state but 0 (C15_step_other), and in state 0 changes only the "
            "pending-annotation slot (C15_step_s0_on) or nothing (annotations off, C15_step_s0_off); with annotation support off inserting a comment "
            "token anywhere in any token list leaves the final machine unchanged (C15_insert, unbounded); with annotation support ON inserting a comment "
@@ -23,7 +23,9 @@ RULE = ("accepted and rejected (mutated) texts as token lists; a comment of ever
         "non-trivial = insertion point not at an item boundary, or the comment became an annotation")
 
 COMMENT_FORMS = [b"# c\n", b"#\n", b"## x # y\n", b"// c\n", b"//\n", b"/// z\n", b"/* c */", b"/**/", b"/* a\n b */", b"/** d **/",
-                 b"/* * / */", b"/*\n*/", b"# { } = \" '\n", b"/* \" ' { */", b"  ", b"\n\n", b"\t", b" \n\t "]
+                 b"/* * / */", b"/*\n*/", b"# { } = \" '\n", b"/* \" ' { */", b"  ", b"\n\n", b"\t", b" \n\t ",
+                 # line comments that contain the end-of-comment marker (F34: printed inside /* */ they escaped it)
+                 b"# p */ t\n", b"// a */ i = 7 /* b\n", b"## #x */\n", b"# */\n"]
 
 
 def render_plain(toks):
